@@ -763,6 +763,7 @@ def plan(tier, seed):
     # the small strata first: if the wall cap triggers, it cuts the last level of the full alphabet
     nsplit = 1 if tier == "quick" else 8
     shards = [{"alpha": "TH", "h": i, "i": k, "n": nsplit} for i in range(len(TH_HARNESSES)) for k in range(nsplit)]
+    shards.append({"alpha": "RE"})
     for ci in _pair_configs(tier):
         for mi in range(len(MODES)):
             for fi in range(len(_PAIR_ALPHABET)):
@@ -1036,6 +1037,89 @@ def _replay_TH(case):
     return _in_child(child)
 
 
+# ------------------------------------------------------------------ part RE: renderables that use the console while being rendered
+# One print call with 0..2 ordinary renderables before a renderable R whose __rich_console__ enters
+# console.capture(), prints, leaves the capture and then yields its own output -- under every print option
+# that changes how the call's segments are collected (crop / soft_wrap / no_wrap / overflow) x record on/off
+# x configurations. Oracle (twin consoles of the same configuration, nothing re-entrant on them):
+#   captured == what a twin writes for print(inner);   file == what a twin writes for the same call with R
+#   replaced by a plain renderable yielding R's output;   export_text == captured text + visible text of the file.
+RE_PRE = [[], ["Report <1> & more:"], ["[b]p[/b]", "q"]]
+RE_INNER = ["inner text", "[i]in[/i] <&>"]
+RE_OPTS = [{}, {"crop": False}, {"soft_wrap": True}, {"no_wrap": True}, {"overflow": "ignore", "crop": False}, {"end": ""}]
+RE_CONFIGS = [(None, False, 40, None), ("standard", True, 40, None), ("truecolor", True, 10, None), ("256", False, 40, "env")]
+
+
+class _Plain:
+    def __init__(self, text):
+        self.text = text
+
+    def __rich_console__(self, console, options):
+        from rich.text import Text
+        yield Text(self.text)
+
+
+class _Reentrant:
+    def __init__(self, inner):
+        self.inner = inner
+        self.captured = None
+
+    def __rich_console__(self, console, options):
+        from rich.text import Text
+        with console.capture() as cap:
+            console.print(self.inner)
+        self.captured = cap.get()
+        yield Text("R-out")
+
+
+def check_reentrant(ci, pi, ii, oi, record, res):
+    cfg, pre, inner, opts = RE_CONFIGS[ci], RE_PRE[pi], RE_INNER[ii], RE_OPTS[oi]
+    case = {"part": "RE", "cfg": ci, "pre": pi, "inner": ii, "opts": oi, "record": record}
+    what = "print(%s_Reentrant(%r)%s) on config %r record=%r" % ("".join("%r, " % p for p in pre), inner,
+                                                                "".join(", %s=%r" % kv for kv in opts.items()), cfg, record)
+    res.evaluations += 1
+    try:
+        t1 = _console(cfg, False)
+        t1.print(inner)
+        want_cap = _norm(t1.file.getvalue())
+        t2 = _console(cfg, False)
+        t2.print(*pre, _Plain("R-out"), **opts)
+        want_file = _norm(t2.file.getvalue())
+        con = _console(cfg, record)
+        r = _Reentrant(inner)
+        con.print(*pre, r, **opts)
+        got_file = _norm(con.file.getvalue())
+        got_cap = None if r.captured is None else _norm(r.captured)
+        exported = con.export_text(clear=False) if record else None
+    except Exception as exc:  # noqa: BLE001
+        res.violate("reentrant/" + _crash_key(exc), case, "%s raised %r" % (what, exc))
+        return
+    if got_cap != want_cap:
+        res.violate("reentrant/capture-content", case, "%s: the capture inside R returned %r, a print of the same text writes %r"
+                    % (what, got_cap, want_cap))
+    if got_file != want_file:
+        res.violate("reentrant/file", case, "%s: file %r, the same call without the capture writes %r" % (what, got_file, want_file))
+    # (captured output is recorded as well -- the convention of the whole check: it counts as written, at the
+    # moment the capture block is left, i.e. before the segments of the outer call)
+    if exported is not None and exported != _chars(want_cap) + _chars(got_file):
+        res.violate("reentrant/export-differs-from-file", case, "%s: export_text %r, captured text + visible text of the file %r"
+                    % (what, exported, _chars(want_cap) + _chars(got_file)))
+    res.sig(("RE", ci, pi, oi, record), nontrivial=bool(pre))
+
+
+def _part_RE(res):
+    n = 0
+    for ci in range(len(RE_CONFIGS)):
+        for pi in range(len(RE_PRE)):
+            for ii in range(len(RE_INNER)):
+                for oi in range(len(RE_OPTS)):
+                    for record in (False, True):
+                        check_reentrant(ci, pi, ii, oi, record, res)
+                        n += 1
+    res.count("reentrant_cases", n)
+    res.count("transitions", n)
+
+
 def _cold_caches():
     """Style.parse hands out shared Style objects and a Style memoises its SGR string; every shard /
     replay starts with fresh objects so that a verdict never depends on what ran before in the process."""
@@ -1049,6 +1133,9 @@ def run_shard(sh, tier, seed):
     _cold_caches()
     if sh["alpha"] == "TH":
         _part_TH(sh, tier, res)
+        return res
+    if sh["alpha"] == "RE":
+        _part_RE(res)
         return res
     cfg = CONFIGS[sh["cfg"]]
     full_d, core_d, pair_d = _depths(tier)
@@ -1153,6 +1240,10 @@ def describe(tier, seed, res):
 def replay(case):
     if case.get("part") == "TH":
         return _replay_TH(case)
+    if case.get("part") == "RE":
+        res = Result()
+        check_reentrant(case["cfg"], case["pre"], case["inner"], case["opts"], case["record"], res)
+        return [(k, v[2]) for k, v in sorted(res.violations.items())]
     cfg = tuple(case["config"])
     if len(cfg) == 3:
         cfg += (None,)
